@@ -54,7 +54,12 @@ def check(prog: Program, run: Run) -> None:
              "for, forwards the protocol and converts as specified", floor=13)
     run.rule("C15.G1", "literal attribute names used for the raw comparam/parent lists exist",
              floor=1)
+    run.rule("C15.G7", "the comparam parsers read every qualifier element on its own: what feeds "
+             "one field is not skipped because another field's element is present", floor=4)
     _merge(prog, run)
+    common.g7_independent_elements(prog, run, "C15.G7", [
+        "odxtools/comparam*.py", "odxtools/complexcomparam.py", "odxtools/basecomparam.py",
+        "odxtools/parentref.py", "odxtools/diaglayers/*raw.py"])
     _lookup(prog, run)
     _defaults(prog, run)
     _subparam_order(prog, run)
